@@ -36,11 +36,13 @@ import (
 	"time"
 
 	"github.com/robinbraemer/event"
+	jconfig "go.minekube.com/gate/pkg/edition/java/config"
 	"go.minekube.com/gate/pkg/edition/java/proto/packet"
 	"go.minekube.com/gate/pkg/edition/java/proxy"
 	"go.minekube.com/gate/pkg/edition/java/proxy/verifh/e2e"
 	"go.minekube.com/gate/pkg/edition/java/proxy/verifh/lib"
 	"go.minekube.com/gate/pkg/gate/proto"
+	"go.minekube.com/gate/pkg/util/configutil"
 )
 
 type reqKey struct{}
@@ -62,7 +64,7 @@ func settleWatchdog() time.Duration {
 // ---------------------------------------------------------------------------------------
 // generator
 
-var allModes = []string{mAccept, mAccept, mSlowAccept, mRefuse, mKickLogin, mKickConfig, mKickPlay, mKickPlayLate, mHang, mHang, mCloseLogin, mCloseHS}
+var allModes = []string{mAccept, mAccept, mSlowAccept, mSlowDial, mSlowDial, mRefuse, mKickLogin, mKickConfig, mKickPlay, mKickPlayLate, mHang, mHang, mStallJoin, mStallJoin, mCloseLogin, mCloseHS}
 
 func pick[T any](rng *rand.Rand, xs ...T) T { return xs[rng.Intn(len(xs))] }
 
@@ -76,10 +78,13 @@ func genScenario(rng *rand.Rand, id int) Scenario {
 			s.LoginDelayMs = pick(rng, 10, 25)
 		case mKickPlayLate:
 			s.KickDelayMs = pick(rng, 2, 5)
+		case mSlowDial:
+			s.DialDelayMs = pick(rng, 8, 20)
 		}
 		sc.Scripts[n] = s
 	}
-	hangs := func(n string) bool { return sc.Scripts[n].Mode == mHang }
+	// scripts that only end when the context passed to Connect ends
+	hangs := func(n string) bool { m := sc.Scripts[n].Mode; return m == mHang || m == mStallJoin }
 	// try list: never a hanging server (a fallback to it would only be ended by the proxy's
 	// own 5 s connection timeout) and never a server that throws established players out:
 	// a fallback that accepts and kicks sends the player round in circles ("kick storm"), in
@@ -93,7 +98,12 @@ func genScenario(rng *rand.Rand, id int) Scenario {
 	}
 	if rng.Intn(100) < 15 {
 		first := pick(rng, "s1", "s2", "s3")
-		if !hangs(first) && sc.Scripts[first].Mode != mSlowAccept {
+		if sc.Scripts[first].Mode == mStallJoin {
+			// "no previous server": the initial attempt is ended by the proxy's own
+			// connection timeout, shortened for this scenario
+			sc.ConnTimeoutMs = 300
+		}
+		if sc.Scripts[first].Mode != mHang && sc.Scripts[first].Mode != mSlowAccept {
 			sc.Initial = first
 			if rng.Intn(100) < 40 {
 				sc.Try = []string{first}
@@ -120,7 +130,7 @@ func genScenario(rng *rand.Rand, id int) Scenario {
 			// third request while the first is still undecided
 			long := ""
 			for _, n := range []string{"s1", "s2", "s3"} {
-				if m := sc.Scripts[n].Mode; m == mHang || m == mSlowAccept {
+				if m := sc.Scripts[n].Mode; m == mHang || m == mSlowAccept || m == mSlowDial || (m == mStallJoin && sc.Proto < 764) {
 					long = n
 				}
 			}
@@ -175,11 +185,49 @@ type exec struct {
 	reqOf   map[string]int // "server#n" -> request id
 	nextReq int
 	rng     *rand.Rand
+	// requests that have returned (a stalled backend goes on only after that)
+	returned map[int]bool
+}
+
+func (x *exec) markReturned(id int) {
+	x.mu.Lock()
+	x.returned[id] = true
+	x.mu.Unlock()
+}
+
+// stallJoin is the BeforeJoin hook of the stall-join script: block until the request this
+// connection was dialled for has returned (its context ended), or - for connections the proxy
+// dialled on its own (initial join, fallback) - until the proxy's connection timeout is well
+// over, or until the proxy closed the connection. Then the backend goes on.
+func (x *exec) stallJoin(bc *e2e.BackendConn) {
+	key := fmt.Sprintf("%s#%d", bc.B.Name, bc.N)
+	limit := 6 * time.Second
+	x.mu.Lock()
+	id, ok := x.reqOf[key]
+	x.mu.Unlock()
+	if !ok || id < 0 {
+		ct := 1500 // (DefaultConfig's connection timeout is effectively unbounded; such scripts are not used as fallbacks)
+		if x.sc.ConnTimeoutMs > 0 {
+			ct = x.sc.ConnTimeoutMs
+		}
+		limit = time.Duration(ct)*time.Millisecond + 250*time.Millisecond
+	}
+	start := time.Now()
+	for time.Since(start) < limit && !bc.Conn.PeerClosed() {
+		x.mu.Lock()
+		done := id >= 0 && x.returned[id]
+		x.mu.Unlock()
+		if done {
+			time.Sleep(300 * time.Microsecond)
+			return
+		}
+		time.Sleep(200 * time.Microsecond)
+	}
 }
 
 func toE2E(mode string) e2e.Mode {
 	switch mode {
-	case mAccept, mSlowAccept:
+	case mAccept, mSlowAccept, mSlowDial, mStallJoin:
 		return e2e.Accept
 	case mRefuse:
 		return e2e.RefuseDial
@@ -216,11 +264,17 @@ func (x *exec) preSleep() time.Duration {
 
 func (x *exec) setup() error {
 	sc := x.sc
-	h, err := e2e.New(e2e.Options{})
+	h, err := e2e.New(e2e.Options{Mutate: func(c *jconfig.Config) {
+		if sc.ConnTimeoutMs > 0 {
+			// Gate multiplies this field by time.Millisecond where it uses it
+			c.ConnectionTimeout = configutil.Duration(sc.ConnTimeoutMs)
+		}
+	}})
 	if err != nil {
 		return err
 	}
 	x.h = h
+	x.returned = map[int]bool{}
 	x.b = map[string]*e2e.Backend{}
 	x.reqOf = map[string]int{}
 	for _, name := range serverNames {
@@ -238,6 +292,12 @@ func (x *exec) setup() error {
 			}
 			if eff == mKickPlayLate {
 				beh.KickDelay = time.Duration(scr.KickDelayMs) * time.Millisecond
+			}
+			if eff == mSlowDial {
+				beh.DialDelay = time.Duration(scr.DialDelayMs) * time.Millisecond
+			}
+			if eff == mStallJoin || eff == mStallJoinCfg {
+				beh.BeforeJoin = x.stallJoin
 			}
 			return beh
 		})
@@ -326,6 +386,11 @@ func (x *exec) snapshot(label string, limboOK bool) Snap {
 				// scripted to kick after JoinGame: pending until the kick went out AND the
 				// connection is seen closed (FailAt is stamped before the kick is written)
 				s.Pending = append(s.Pending, fmt.Sprintf("%s#%d is about to kick", name, bc.N))
+			}
+			if !cs.Closed && !cs.Joined && bc.Behavior.BeforeJoin != nil && st.AnswerAt != 0 {
+				// stalled before JoinGame: pending until it has gone on (JoinGame stamped) or
+				// the connection is seen closed
+				s.Pending = append(s.Pending, fmt.Sprintf("%s#%d is stalling its JoinGame", name, bc.N))
 			}
 		}
 	}
@@ -429,6 +494,7 @@ func (x *exec) issue(q ReqSpec, target string, id int, release <-chan struct{}, 
 		}
 	}
 	ro.ReturnAt = e2e.Now()
+	x.markReturned(id)
 	ro.CurAtRet = x.curName()
 	ro.CurReadAt = e2e.Now()
 	tm.Stop()
@@ -578,7 +644,7 @@ func runScenario(sc Scenario, seed int64) *Observation {
 						var n int
 						name := key[:strings.IndexByte(key, '#')]
 						fmt.Sscanf(key[len(name)+1:], "%d", &n)
-						if sc.EffMode(name, n) == mKickConfig {
+						if m := sc.EffMode(name, n); m == mKickConfig || m == mStallJoinCfg {
 							limboOK = true
 						}
 					}
